@@ -4,9 +4,10 @@ Per run: (1) the Coq theorems of coq/Props/C09.v, (2) the real code driven by ha
 through dag.LoadYAML and Parsed.Next; schedule values; daemon histories against the real scheduler + watcher
 with a recording client), (3) correspondence = the Coq models Cron / Daemon evaluated on the same cases,
 (4) MONITOR = the property itself, evaluated by tools/props/cron_lib.py (independent python cron matcher) on the
-calls the real daemon issued.  Genuine defects of the tree (F9a, F9b) are classified narrowly and matched against
-known_findings.d/C09.json; F13a / F13b (loader panics killing the daemon) are repaired in /repo - the monitor
-reports any recurrence as a violation."""
+calls the real daemon issued.  The remaining genuine defect of the tree (F9b: two start schedules matching one
+minute) is classified narrowly and matched against known_findings.d/C09.json; F9a (zero Next invoked at every tick)
+and F13a / F13b (loader panics killing the daemon) are repaired in /repo - the monitor reports any recurrence as a
+violation."""
 import json
 import os
 from concurrent.futures import ThreadPoolExecutor
@@ -349,7 +350,19 @@ def load_corpus():
     return vlib.read_jsonl(p) if os.path.exists(p) else []
 
 
+def own_fragment_first(ctx):
+    """known_findings.d/C09.json is authoritative for this property: an entry it marks `fixed` suppresses nothing even
+    if the merged known_findings.json still carries an older state for the same id."""
+    p = os.path.join(vlib.VERIF, "known_findings.d", "C09.json")
+    if os.path.exists(p):
+        frag = {e["id"]: e for e in json.load(open(p))}
+        ctx.known = [frag.get(k["id"], k) for k in ctx.known]
+        ctx.known += [e for i, e in frag.items() if i not in {k["id"] for k in ctx.known} and e.get("property") == ctx.pid]
+        ctx.known = [k for k in ctx.known if k.get("state") == "known"]
+
+
 def run(ctx, replay_cases=None):
+    own_fragment_first(ctx)
     ctx.proofs(extra=["Cron/Check.vo", "Daemon/Check.vo"])
     tool, out, _ = vlib.go_build("cron", ctx.scratch)
     if tool is None:
@@ -425,6 +438,7 @@ def replay(ctx, path):
             for v in x:
                 grab(v)
     grab(body)
+    own_fragment_first(ctx)
     tool, out, _ = vlib.go_build("cron", ctx.scratch)
     if tool is None:
         ctx.fail("correspondence", "harness does not build against /repo", {"log": out[-2000:]})
